@@ -201,7 +201,7 @@ func TestC14(t *testing.T) {
 		ev.Extra("enumerated_max_extent", maxExt)
 	})
 
-	check(t, "generated", 20000, 60000, func(rt *rapid.T) {
+	check(t, "generated", 20000, 200000, func(rt *rapid.T) {
 		helper := rapid.SampledFrom([]string{"multi", "uni"}).Draw(rt, "helper")
 		dt := rapid.SampledFrom(ops.AllTypes).Draw(rt, "dtype")
 		p := genBroadcastPair(5, 9, 600).Draw(rt, "pair")
